@@ -141,6 +141,41 @@ Section Envelope.
   Qed.
 End Envelope.
 
+(* chi-squared has period pi in alpha: the interval [alpha0 - pi/2, alpha0 + pi/2] handed to the
+   minimiser has equal values at its two ends, so it brackets a minimum only if chi-squared at
+   alpha0 is below that common value (fixed finding C14-wtls-bracket-end) *)
+Section Periodic.
+  Variable D : list pt5.
+
+  Lemma gS_period d a : gS d (a + PI) = gS d a.
+  Proof.
+    unfold gS. replace (2 * (a + PI)) with (2 * a + 2 * INR 1 * PI) by (simpl; ring).
+    rewrite cos_period, sin_period. reflexivity.
+  Qed.
+
+  Lemma zS_period d a : zS d (a + PI) = - zS d a.
+  Proof. unfold zS. rewrite neg_cos, neg_sin. ring. Qed.
+
+  Lemma S0_period a : S0 D (a + PI) = S0 D a.
+  Proof. unfold S0. apply rsum_ext. intros d _. rewrite gS_period. reflexivity. Qed.
+
+  Lemma pS_period a : pS D (a + PI) = - pS D a.
+  Proof.
+    unfold pS, ybarS, xbarS, wS, u2S. rewrite S0_period, neg_cos, neg_sin.
+    rewrite (rsum_ext (fun d => 1 / (S0 D a / INR (length D)) / gS d (a + PI) * q2 d)
+                      (fun d => 1 / (S0 D a / INR (length D)) / gS d a * q2 d)) by (intros; rewrite gS_period; reflexivity).
+    rewrite (rsum_ext (fun d => 1 / (S0 D a / INR (length D)) / gS d (a + PI) * q1 d)
+                      (fun d => 1 / (S0 D a / INR (length D)) / gS d a * q1 d)) by (intros; rewrite gS_period; reflexivity).
+    ring.
+  Qed.
+
+  Theorem chiS_period a : chiS D (a + PI) = chiS D a.
+  Proof.
+    unfold chiS. apply rsum_ext. intros d _. unfold vS. rewrite zS_period, pS_period, gS_period.
+    unfold Rdiv. ring.
+  Qed.
+End Periodic.
+
 (* ================= Part 2: the generated trees denote the functions of part 1 ================= *)
 (* value of l ** r as Python computes it when r is the constant 2: l*l for EVERY l *)
 Definition binop2 (f : binop) (l r : R) : R :=
